@@ -221,11 +221,15 @@ def run_one(case):
         # policy, no caller set must work, otherwise the failure is not a missing-data matter (e.g.
         # lag() on a narwhals series, str columns into a sparse matrix): the case is skipped and counted.
         base = (n, (0, 0, 0) + (((cx[0], 0),) if cx else ()), ik, td, fname, "drop", ("none", None), entry, out)
-        if case == base:
-            return False, [], "baseline-fails:" + type(exc).__name__
-        sk = run_one(base)[2]
-        if sk:
-            return False, [], sk
+        # (List-valued context columns: sparse output works since fix commits M8/M9 and is judged by this same rule;
+        # a list inside an interaction - `c:x` - raises for EVERY output also on the null-free frame: a uniform limitation
+        # of the library, not a row-removal matter, so it is skipped like tuples, for which find_nulls has no implementation.)
+        if True:
+            if case == base:
+                return False, [], "baseline-fails:" + type(exc).__name__
+            sk = run_one(base)[2]
+            if sk:
+                return False, [], sk
     check_index = out == "pandas" and entry != "NarwhalsMaterializer"
 
     def rows(expected_kept, area):
